@@ -512,3 +512,43 @@ func init() {
 		}
 	})
 }
+
+// ------------------------------------------------------------------ C12.R12
+// F29: in v0 the decision "not in the pool yet, and there is room" and the insertion are taken in the
+// first-time CheckTx callback. With an in-process ABCI client that callback runs in the caller's goroutine,
+// and concurrent callers share only the *read* side of the update lock: the step must run under an exclusive
+// lock of its own, or two callers both decide "absent / room" and both insert.
+func init() {
+	register("C12", "R12", "K6", "v0: the pool insertion and the checks deciding it run under an exclusive lock (callers of CheckTx only share a read lock)", 3, func(c *Ctx) {
+		w := c.W
+		k := newKeyer()
+		n := 0
+		for _, s := range w.allCallsTo("mempool/v0#CListMempool.addTx") {
+			if strings.HasSuffix(w.Fset.Position(s.Instr.Pos()).Filename, "_test.go") {
+				continue
+			}
+			n++
+			f := s.Fn
+			excl := func(at ssa.Instruction) (bool, []string) {
+				held := w.computeLocks(at.Parent()).heldAt(at)
+				for _, h := range held {
+					if !strings.HasSuffix(h, "updateMtx") && !strings.HasSuffix(h, "!") {
+						return true, held
+					}
+				}
+				return false, held
+			}
+			ok, held := excl(s.Instr)
+			c.Check(ok, k.key(f, "insert into the pool"), w.ipos(s.Instr), "an exclusive mutex is held", "the insertion runs with only ["+strings.Join(held, ",")+"] held: concurrent CheckTx callbacks can insert the same transaction twice or overshoot the size limit")
+			// the two deciding checks are inside the same critical section
+			for _, dc := range w.deepCallsMatching(f, 1, `^mem\.txsMap\.Load\(|^mem\.isFull\(`) {
+				if !dc.site.Block().Dominates(s.Instr.Block()) && dc.site.Block() != s.Instr.Block() {
+					continue
+				}
+				okc, heldc := excl(dc.site)
+				c.Check(okc, k.key(f, "check deciding the insertion"), w.ipos(dc.site), "under the same exclusive mutex", w.callStr(dc.call)+" is evaluated with only ["+strings.Join(heldc, ",")+"] held, before the insertion's critical section")
+			}
+		}
+		c.Check(n >= 1, "mempool/v0 :: insertion sites found", "-", ">= 1", fmt.Sprintf("%d", n))
+	})
+}
